@@ -23,7 +23,7 @@ func init() {
 			"x GOMAXPROCS in {1, 2, 4, 16, 64} each issuing 3-6 calls on the inputs, no monitor, no hook installed; before the concurrent phase a quarter of the batches each makes no call, a monitored call that returns, a monitored call on the empty graph (panics), a monitored call on a malformed edge (panics); oracles: (1) zero race detector reports (GORACE log of every worker, de-duplicated by the " +
 			"innermost autog frames), (2) every concurrent result equals its sequential reference byte for byte, (3) at the quiescent point the monitor globals are idle and the default options are unchanged (hook H4); " +
 			"non-trivial = a batch in which calls on different algorithm cells actually overlapped in time (measured with an in-flight counter)",
-		MinNontrivial: counts(60, 600),
+		MinNontrivial: counts(24, 240),
 		Required:      []string{"overlapping_calls", "concurrent_calls", "equality_checks", "preamble:2", "preamble:3"},
 		Budget:        120,
 		Assumptions: []string{
